@@ -429,22 +429,27 @@ Definition spec_serve (c : config) (rq : request) (fs : fsys) (target : list tex
         S200 (map (fun ce => (content_of (walk fs [] (fst ce)), snd ce)) (filter minimal live))
   end.
 
+(* what the property demands once the normalised segments are known; [decoded] is the
+   decoded request path (it decides between index file and add-slash redirect) *)
+Definition spec_tail (c : config) (rq : request) (fs : fsys) (decoded : option text) (segs : list text) : spec_out :=
+  let target := spec_root c ++ segs in
+  match walk fs [] target with
+  | Some (EDir _) =>
+      match decoded with
+      | None => SReject
+      | Some p =>
+          if ends_with slash p then spec_serve c rq fs (target ++ [eff_index c])
+          else S301 (c_host c ++ quote (c_safe c) (encode p) ++ [slash] ++
+                     match r_qs rq with [] => [] | q => [63] ++ q end)
+      end
+  | _ => spec_serve c rq fs target
+  end.
+
 Definition spec_response (c : config) (rq : request) (fs : fsys) : spec_out :=
   match spec_segments c rq with
   | None => SReject
   | Some None => S404
-  | Some (Some segs) =>
-      let target := spec_root c ++ segs in
-      match walk fs [] target with
-      | Some (EDir _) =>
-          let pi := unquote (r_raw rq) in
-          if ends_with slash pi then spec_serve c rq fs (target ++ [eff_index c])
-          else match path_url c pi with
-               | Some u => S301 (u ++ [slash] ++ match r_qs rq with [] => [] | q => [63] ++ q end)
-               | None => SReject
-               end
-      | _ => spec_serve c rq fs target
-      end
+  | Some (Some segs) => spec_tail c rq fs (decode (unquote (r_raw rq))) segs
   end.
 
 Definition opt_text_eqb (a b : option text) : bool :=
